@@ -311,6 +311,85 @@ def r7_register_keeps_tables(ck, cx, rule='R7'):
     ck.floor(rule, n, 2, 'sub-function table writes in register()')
 
 
+def _fresh_container(v):
+    """an expression that yields a new empty/filled container each time it is evaluated"""
+    if isinstance(v, (ast.Dict, ast.DictComp, ast.List, ast.ListComp, ast.Set, ast.SetComp)):
+        return True
+    return isinstance(v, ast.Call) and callee_name(v) in ('dict', 'list', 'set', 'OrderedDict', 'defaultdict')
+
+
+def _per_key_fresh(v):
+    """classify the value assigned to the sub-function table: True = every key gets its own inner table, False = keys share one
+    object, None = not recognised"""
+    if isinstance(v, ast.Dict):
+        return all(_fresh_container(x) for x in v.values)
+    if isinstance(v, ast.DictComp):
+        return _fresh_container(v.value)
+    if isinstance(v, ast.Call):
+        name = callee_name(v)
+        if isinstance(v.func, ast.Attribute) and v.func.attr == 'fromkeys':
+            if len(v.args) < 2:
+                return None
+            d = v.args[1]
+            return False if not (isinstance(d, ast.Constant)) else None
+        if name in ('dict', 'OrderedDict'):
+            if not v.args and not v.keywords:
+                return True
+            a = v.args[0] if v.args else None
+            if isinstance(a, (ast.GeneratorExp, ast.ListComp)) and isinstance(a.elt, (ast.Tuple, ast.List)) and len(a.elt.elts) == 2:
+                val = a.elt.elts[1]
+                if _fresh_container(val):
+                    return True
+                if isinstance(val, (ast.Name, ast.Attribute)):
+                    bound = {n.id for g in a.generators for n in ast.walk(g.target) if isinstance(n, ast.Name)}
+                    return None if (isinstance(val, ast.Name) and val.id in bound) else False
+                return None
+            if isinstance(a, ast.Call) and callee_name(a) == 'zip' and len(a.args) == 2:
+                b = a.args[1]
+                if isinstance(b, (ast.GeneratorExp, ast.ListComp)) and _fresh_container(b.elt):
+                    return True
+                if isinstance(b, ast.BinOp) and isinstance(b.op, ast.Mult):
+                    return False          # [{}] * n : n references to one dict
+                return None
+        if name == 'defaultdict' and v.args and isinstance(v.args[0], ast.Name) and v.args[0].id in ('dict', 'OrderedDict'):
+            return True
+    return None
+
+
+def r9_sub_tables_distinct(ck, cx, rule='R9'):
+    """The decoders keep one inner table {sub-function code: class} per function code and fill them with
+    `self.__sub_lookup[fc][sub] = cls`.  If two function codes share one inner dict object, every sub-function class is dispatched
+    under every function code (0x2B/0x00 decodes as a diagnostic, 0x08/0x0E as device identification)."""
+    ck.rule(rule, 'the decoders build a separate inner sub-function table for every function code (no dict.fromkeys / shared object as the per-key value)')
+    n = 0
+    for dn in ('ServerDecoder', 'ClientDecoder'):
+        d = cx.idx.cls('pymodbus.factory.' + dn)
+        for fn in d.methods.values():
+            for node in ast.walk(fn.node):
+                val, what = None, None
+                if isinstance(node, ast.Assign):
+                    for t in node.targets:
+                        if isinstance(t, ast.Attribute) and t.attr.endswith('__sub_lookup'):
+                            val, what = node.value, 'whole'
+                        elif isinstance(t, ast.Subscript) and isinstance(t.value, ast.Attribute) and t.value.attr.endswith('__sub_lookup'):
+                            val, what = node.value, 'inner'
+                elif isinstance(node, ast.Call) and isinstance(node.func, ast.Attribute) and node.func.attr == 'setdefault' \
+                        and isinstance(node.func.value, ast.Attribute) and node.func.value.attr.endswith('__sub_lookup') and len(node.args) == 2:
+                    val, what = node.args[1], 'inner'
+                if val is None:
+                    continue
+                n += 1
+                ok = _per_key_fresh(val) if what == 'whole' else (True if _fresh_container(val) else None)
+                ck.saw('functions', fn.qn)
+                ck.ob(rule, fn.qn, 'the %s value `%s` gives each function code an inner table of its own' % (what, U(val)[:60]), ok is True,
+                      detail='sub-table-%s %s' % ('shared' if ok is False else 'not-recognised', what), loc=cx.floc(fn, node),
+                      message='%s.%s builds the sub-function table from `%s`: %s, so a sub-function class registered for one function code is '
+                              'dispatched for every function code (0x2B/0x00 decodes as a diagnostics message, 0x08/0x0E as device identification)'
+                              % (dn, fn.name, U(val)[:70], 'all function codes share one inner dict' if ok is False else
+                                 'the inner tables are not provably distinct objects'))
+    ck.floor(rule, n, 4, 'constructions of (inner) sub-function tables')
+
+
 def run(ck, tier):
     cx = Ctx()
     ck.guard(r1_tables, ck, cx)
@@ -318,6 +397,7 @@ def run(ck, tier):
     ck.guard(r4_dispatch, ck, cx)
     ck.guard(r6_constructor_keeps_zero, ck, cx)
     ck.guard(r7_register_keeps_tables, ck, cx)
+    ck.guard(r9_sub_tables_distinct, ck, cx)
     from .c02 import r6_bit_helpers_fresh
     ck.guard(r6_bit_helpers_fresh, ck, cx, 'R8')
     from .c02 import r5_no_shared_default_state
